@@ -57,6 +57,7 @@ class FakeNetaddr:
         return fresh_bool('valid_ipv4_result_%d' % self.n)
 
     def valid_ipv6(self, addr, flags=0):
+        self.seen = getattr(self, 'seen', []) + [addr]
         self._outcome('valid_ipv6', allow_type_error=False)
         return fresh_bool('valid_ipv6_result_%d' % self.n)
 
@@ -115,42 +116,49 @@ def validators_never_raise_for_strings():
 
 
 @proof('C11', targets=[(NU, 'is_valid_ipv6')], native=False,
-       assumes=['A-NETADDR'])
+       assumes=['A-NETADDR', 'A-STDLIB-SPLIT: str.split / str.rsplit by '
+                'contract on the list of %-separated parts'])
 def ipv6_scope_id_rule():
-    """A scope id (text after the last '%') must be 1..15 characters."""
+    """The scope id is the text after the LAST '%' and must be 1..15
+    characters; what precedes it is what netaddr judges."""
     N, na = with_fake_netaddr()
-    addr = fresh_str('address_part')
-    scope = fresh_str('scope')
-    assume(neg('%' in scope))
-    s = addr + '%' + scope
-    # str.rsplit('%', 1) on addr%scope (A-STDLIB: split at the last '%')
-    r = call_with_rsplit(N, s, addr, scope)
-    n = strlen(scope)
-    check('ipv6/scope-empty-or-longer-than-15-rejected',
-          implies(disj(n < 1, n > 15), r == False))  # noqa: E712
-    if r:
-        check('ipv6/accepted-means-netaddr-judged-the-address-part',
-              na.calls == ['valid_ipv6'])
+    nparts = pick('percent_separated_parts', [2, 3])
+    parts = [fresh_str('part%d' % i) for i in range(nparts)]
 
-
-def call_with_rsplit(N, s, addr, scope):
-    """Run is_valid_ipv6 on a string whose rsplit('%', 1) is [addr, scope]:
-    the str.rsplit operator is given by its contract for this shape."""
     class Str:
-        """str-like value whose rsplit is specified."""
+        """A string given by its '%'-separated parts, with the contracts of
+        str.split / str.rsplit for maxsplit=1."""
 
-        def __init__(self, whole):
-            self.whole = whole
+        def _join(self, ps):
+            out = ps[0]
+            for x in ps[1:]:
+                out = out + '%' + x
+            return out
 
         def rsplit(self, sep, maxsplit):
-            return [addr, scope]
+            return [self._join(parts[:-1]), parts[-1]]
+
+        def split(self, sep, maxsplit):
+            return [parts[0], self._join(parts[1:])]
 
         def __bool__(self):
             return True
 
         def __len__(self):
             return 1
-    return N.is_valid_ipv6(Str(s))
+    joiner = Str()
+    r = N.is_valid_ipv6(joiner)
+    scope = parts[-1]
+    n = strlen(scope)
+    check('ipv6/scope-empty-or-longer-than-15-rejected',
+          implies(disj(n < 1, n > 15), r == False))  # noqa: E712
+    if r:
+        check('ipv6/accepted-means-netaddr-judged-the-address-part',
+              na.calls == ['valid_ipv6'])
+        check('ipv6/address-part-is-everything-before-the-last-percent',
+              len(na.seen) == 1
+              and na.seen[0] == joiner._join(parts[:-1]))
+
 
 
 @proof('C11', targets=[(NU, 'is_valid_cidr')], native=False,
@@ -669,3 +677,4 @@ CANARIES = [
          old='0xff_ff_ff_00_00_00_00_00) >> 16)',
          new='0xff_ff_ff_00_00_00_00_00) >> 8)', expect='eui64/mac'),
 ]
+
